@@ -57,6 +57,25 @@ fn inner(r: &Req, xs: &[String], ys: Option<&[String]>) -> Req {
 
 /// `C08ins f=<fn> ins=<mask> ... xs=<base> [ys=<base>]` → `<result on base>;<result with nulls inserted>`
 pub fn run(r: &Req) -> Option<String> {
+    if r.f == "C08enc" {
+        // the same request under the NaN and the None encoding of its input(s): token-for-token equal
+        // (a null prints `_` under both; `Some(NaN)` prints `SomeNaN`)
+        let mut outs = vec![];
+        for enc in ["f64", "of64"] {
+            let mut q = Req::parse(r.s("f"));
+            for k in &r.order {
+                if !matches!(k.as_str(), "f" | "t" | "t2") {
+                    q.set(k, r.kv[k].clone());
+                }
+            }
+            q.set("t", enc.to_string());
+            if r.has("ys") && !r.s("f").starts_with("agg_") {
+                q.set("t2", enc.to_string());
+            }
+            outs.push(super::run(&q)?);
+        }
+        return Some(if outs[0] == outs[1] { "EQ".to_string() } else { format!("DIFF:{}|{}", outs[0].replace(';', "|"), outs[1].replace(';', "|")) });
+    }
     if r.f != "C08ins" {
         return None;
     }
@@ -164,10 +183,40 @@ pub fn generate(tier: &str, rng: &mut Rng) -> (Vec<String>, bool) {
             }
         }
     }
+    // re-encoding under extreme magnitudes (overflow to inf, inf - inf = NaN, underflow) and the two
+    // infinities: no model value exists, the two encodings of the input are compared with each other
+    let big = crate::cases::pow2_str(600);
+    let vals: Vec<String> = vec!["_".into(), "1".into(), "-3".into(), big.clone(), format!("-{}", big), format!("1/{}", big), "inf".into(), "-inf".into()];
+    let n_enc = if thorough { 60 } else { 8 };
+    let mut pick = |rng: &mut Rng, len: usize| -> Vec<String> { (0..len).map(|_| vals[rng.below(vals.len())].clone()).collect() };
+    for f in ROLL.iter().filter(|f| f.nullable && f.family != "fdiff") {
+        for i in 0..n_enc {
+            let len = 1 + rng.below(8);
+            let (xs, ys) = (pick(rng, len), pick(rng, len));
+            let w = 1 + rng.below(len + 1);
+            let mp = Some(rng.below(w + 1));
+            let o = ["f64", "of64"][i % 2];
+            let mut l = format!("C08enc f={} w={} mp={} o={} xs={}{}", f.name, w, mp_tok(mp), o, join(&xs), f.extra);
+            if f.arity == 2 { l.push_str(&format!(" ys={}", join(&ys))); }
+            out.push(l);
+        }
+    }
+    for (f, extra, two) in TRANSPARENT {
+        if f.starts_with("vquantile") || *f == "vmedian" || *f == "vpercentile_of" || *f == "vrank" {
+            continue;
+        }
+        for _ in 0..n_enc * 2 {
+            let len = 1 + rng.below(6);
+            let (xs, ys) = (pick(rng, len), pick(rng, len));
+            let mut l = format!("C08enc f={}{} xs={}", f, extra, join(&xs));
+            if *two { l.push_str(&format!(" ys={}", join(&ys))); }
+            out.push(l);
+        }
+    }
     out.extend(super::c08_extra(tier, rng));
     (out, true)
 }
 
 pub fn rule(tier: &str) -> String {
-    format!("every null-aware catalogued entry point on the same logical series under the four encodings (f64 NaN, f32 NaN, Option<f64> None, Option<i32> None) x four output element types (f64, f32, Option<f64>, Option<i32>): all 16 cells must equal the single model result; exhaustive over {{null,0,1,3}}^len, len <= {}, windows {{1,2,3,len+1}}, min_periods {{omitted,1,w}}, plus random integral series to length 45; null-insertion transparency: for 20 aggregation / order-statistic configurations (vrank x3 on the valid entries, count_valid, vsum, vmean, vmax, vmin, vmean_var, vvar, vstd, vskew, vkurt, vcov, vcorr_pearson, vquantile x2, vmedian, vpercentile_of x2) every base series over {{null,0,1,3}} up to length 4 with 7-9 insertion masks (leading, trailing, interleaved, blocks; pairwise patterns for two-series functions): result on the base series and on the series with nulls inserted both compared with the model; mappings: every null-aware mapping of tea-map (shift, vshift, vdiff, vpct_change, ffill, bfill, fill, the three *_mask forms with 6 predicates, vclip with lower / upper bounds incl. one-sided (null) bounds, vabs) on every series over {{null,-2,0,3}} up to length {} under each null-capable encoding it accepts (f64 NaN, Option<f64> None, Option<i32> None), each cell compared with the one model result. non-trivial = len >= 2 with a non-null output.", if tier == "thorough" { 5 } else { 3 }, if tier == "thorough" { 4 } else { 3 })
+    format!("every null-aware catalogued entry point on the same logical series under the four encodings (f64 NaN, f32 NaN, Option<f64> None, Option<i32> None) x four output element types (f64, f32, Option<f64>, Option<i32>): all 16 cells must equal the single model result; exhaustive over {{null,0,1,3}}^len, len <= {}, windows {{1,2,3,len+1}}, min_periods {{omitted,1,w}}, plus random integral series to length 45; null-insertion transparency: for 20 aggregation / order-statistic configurations (vrank x3 on the valid entries, count_valid, vsum, vmean, vmax, vmin, vmean_var, vvar, vstd, vskew, vkurt, vcov, vcorr_pearson, vquantile x2, vmedian, vpercentile_of x2) every base series over {{null,0,1,3}} up to length 4 with 7-9 insertion masks (leading, trailing, interleaved, blocks; pairwise patterns for two-series functions): result on the base series and on the series with nulls inserted both compared with the model; mappings: every null-aware mapping of tea-map (shift, vshift, vdiff, vpct_change, ffill, bfill, fill, the three *_mask forms with 6 predicates, vclip with lower / upper bounds incl. one-sided (null) bounds, vabs) on every series over {{null,-2,0,3}} up to length {} under each null-capable encoding it accepts (f64 NaN, Option<f64> None, Option<i32> None), each cell compared with the one model result; extreme magnitudes: every nullable rolling function and the 14 moment / extremum / covariance aggregations on random series over {{null, 1, -3, +-2^600, 2^-600, +-inf}} (sums overflow, inf - inf = NaN, products underflow) under the NaN and the None encoding of the input, the two results compared token for token with each other (no model value exists there). non-trivial = len >= 2 with a non-null output.", if tier == "thorough" { 5 } else { 3 }, if tier == "thorough" { 4 } else { 3 })
 }
